@@ -1,6 +1,7 @@
 package props
 
 import (
+	"math/bits"
 	"fmt"
 	"sort"
 	"strings"
@@ -175,10 +176,48 @@ func (j *C02Job) Run(deadline time.Time) *runner.JobResult {
 		if explained(refs, m, reqs) {
 			return true
 		}
+		// the signature names a smallest set of answers that no reference explains when the
+		// answers of all other requests are disregarded (their effects stay possible): the
+		// same anomaly then has the same signature whatever else ran next to it
+		var cl []*world.Req
+		for _, q := range reqs {
+			if q.Client != 8 && !failed(q) {
+				cl = append(cl, q)
+			}
+		}
+		core := cl
+		for size := 1; size < len(cl) && len(core) == len(cl); size++ {
+			for mask := 0; mask < 1<<len(cl); mask++ {
+				if bits.OnesCount(uint(mask)) != size {
+					continue
+				}
+				ign := map[string]bool{}
+				var k []*world.Req
+				for i, q := range cl {
+					if mask&(1<<i) != 0 {
+						k = append(k, q)
+					} else {
+						ign[q.Id] = true
+					}
+				}
+				if !explainedIgnoring(refs, m, reqs, ign) {
+					core = k
+					break
+				}
+			}
+		}
 		kinds := []string{}
 		for _, q := range reqs {
 			if q.Client != 8 {
-				kinds = append(kinds, fmt.Sprintf("%s:%d", q.Req.Kind, q.Status()))
+				in := failed(q)
+				for _, c := range core {
+					if c == q {
+						in = true
+					}
+				}
+				if in {
+					kinds = append(kinds, fmt.Sprintf("%s:%d%s", q.Req.Kind, q.Status(), c02Qualifier(q)))
+				}
 			}
 		}
 		sig := "C02:not-linearizable:" + strings.Join(kinds, ",")
@@ -216,6 +255,12 @@ func (j *C02Job) Run(deadline time.Time) *runner.JobResult {
 // epilogue identically, in an order consistent with the real-time precedence of the
 // concurrent run and at an instant inside every request's interval.
 func explained(refs []c02Ref, m map[string]string, reqs []*world.Req) bool {
+	return explainedIgnoring(refs, m, reqs, nil)
+}
+
+// explainedIgnoring: as explained, with the answers of the requests in ignore disregarded
+// (they are treated like failed requests: they may or may not have taken effect).
+func explainedIgnoring(refs []c02Ref, m map[string]string, reqs []*world.Req, ignore map[string]bool) bool {
 	for _, rf := range refs {
 		pos := map[string]int{}
 		for i, id := range rf.order {
@@ -229,8 +274,8 @@ func explained(refs []c02Ref, m map[string]string, reqs []*world.Req) bool {
 				}
 				continue
 			}
-			if failed(a) {
-				continue // may or may not have taken effect; its own answer is an error
+			if failed(a) || ignore[a.Id] {
+				continue // may or may not have taken effect; its own answer is an error (or disregarded)
 			}
 			if !rf.members[a.Id] || rf.resp[a.Id] != m[a.Id] {
 				ok = false
@@ -411,4 +456,13 @@ func init() {
 			QuickS: 150, ThoroughS: 2400,
 		}
 	}
+}
+
+// c02Qualifier: what makes an acknowledged claim special in a signature, so that one
+// listed anomaly does not stand for every anomaly whose core is a claim.
+func c02Qualifier(q *world.Req) string {
+	if q.Res != nil && q.Res.ClaimTask != nil && q.Res.ClaimTask.RootPromise != nil {
+		return "(root-promise=" + strings.ToLower(q.Res.ClaimTask.RootPromise.State.String()) + ")"
+	}
+	return ""
 }
